@@ -84,9 +84,26 @@ def sx_tree(n):
 
 # ------------------------------------------------------------------ SCXML rendering
 
+# expressions that fail: a syntax error and, per datamodel, run-time faults (all must end as error.execution; which one
+# is used rotates with the position of the faulty expression in the document, so a chart is rendered the same way each time)
+BAD_I = {'lua': [')(', '(1 // 0)', '(nil + 1)', '(1 % 0)', 'error(&quot;x&quot;)', '({} .. 1)', 'error()', 'error({})'],
+         'promela': [')(', '(1 / 0)', '(1 % 0)', '((0 - 2147483647 - 1) / (0 - 1))', '((0 - 2147483647 - 1) % (0 - 1))'],
+         'null': [')(']}
+BAD_B = {'lua': [')(', '(nil &lt; 1)', 'error(&quot;x&quot;)', '((1 // 0) &lt; 1)', 'error()', 'error({})'],
+         'promela': [')(', '((1 / 0) &lt; 1)', '((1 % 0) &lt; 1)', '(((0 - 2147483647 - 1) % (0 - 1)) &lt; 1)'],
+         'null': [')(']}
+_bad_ctr = [0]
+
+
+def _bad(tab, dm):
+    l = tab.get(dm, [')('])
+    _bad_ctr[0] += 1
+    return l[(_bad_ctr[0] - 1) % len(l)]
+
+
 def r_i(e, dm):
     if e == 'bad':
-        return ')('
+        return _bad(BAD_I, dm)
     if e[0] == 'n':
         return str(e[1]) if e[1] >= 0 else '(0 - %d)' % (-e[1])
     if e[0] == 'v':
@@ -96,7 +113,7 @@ def r_i(e, dm):
 
 def r_b(e, dm):
     if e == 'bad':
-        return ')('
+        return _bad(BAD_B, dm)
     if e == 'true':
         return 'true'
     if e == 'false':
@@ -187,6 +204,7 @@ def r_node(n, dm, late, top=False):
 
 
 def to_scxml(tree, dm, late=False):
+    _bad_ctr[0] = 0
     return '<?xml version="1.0"?>' + r_node(tree, dm, late, True)
 
 
